@@ -1,10 +1,13 @@
 import OdxVerif.Props.C02
+import OdxVerif.Proofs.FlatReject
 /-! # C04 — the encoder never silently emits a PDU that misrepresents its input
     Proved tier: atomic `A_INT32` objects, **every** integer `v` (no range hypothesis): strict encoding
     either fails with the library's encode error and writes nothing, or succeeds and the decoder returns
     `v`. (At the pinned commit this was false: 200 was accepted for 8 bits and came back as −56;
     fixed in /repo by the "reject signed integers …" commit, whose code this model follows.)
-    Composite tier and the other base types: executable model + correspondence + direct oracle (`_partial`). -/
+    `C04_flat` lifts this to `Request.encode` / `Request.decode` of the model on flat descriptions and
+    **arbitrary** supplied values (missing, `None`, wrongly typed, not an atom, out of range, unknown names).
+    Nested composites and the other base types: executable model + correspondence + direct oracle. -/
 namespace OdxVerif.Codec
 open OdxVerif.Bits OdxVerif.OdxM
 
@@ -31,6 +34,82 @@ theorem C04_accepts_iff_representable (enc : Option Enc) (hk : int32Known enc = 
   · intro hr
     obtain ⟨s', h1, _⟩ := emplaceAtomic_int32 enc hk bl hbl hbl64 v hr hl s
     exact ⟨s', h1⟩
+
+theorem zip_map_self {α β : Type} (l : List α) (f : α → β) : l.zip (l.map f) = l.map fun a => (a, f a) := by
+  induction l with
+  | nil => rfl
+  | cons a rest ih => simp [List.zip_cons_cons, ih]
+
+def errClass {α : Type} : Except Err α → Option Err
+  | .error e => some e
+  | .ok _ => none
+
+/-- **C04, flat tier, API level of the model.** For every list of (≤ 4000) positioned `A_INT32` VALUE parameters
+    and *every* dictionary of supplied values whatsoever, strict `Request.encode` either
+    * raises the library's `EncodeError` (some parameter is missing, `None`, not an integer atom, or not
+      representable) or a plain `OdxError` (unknown parameter name) — never a foreign exception —, or
+    * returns a PDU, and then every parameter was supplied with a representable integer, and — unless the
+      encoder reported overlapping objects — strict `Request.decode` of that PDU returns exactly the
+      supplied values, parameter by parameter. -/
+theorem C04_flat (os : List Obj) (hlen : os.length ≤ 4000) (hok : ∀ o ∈ os, o.ok)
+    (values : List (String × PVal)) (trig : Option Bytes) :
+    encodeMessage none (os.map Obj.toParam) (.dict values) trig true = .error .encode ∨
+    encodeMessage none (os.map Obj.toParam) (.dict values) trig true = .error .odx ∨
+    ∃ (vs : List Int) (pdu : Bytes) (w : Nat), vs.length = os.length ∧
+      encodeMessage none (os.map Obj.toParam) (.dict values) trig true = .ok (pdu, w) ∧
+      (∀ ov ∈ os.zip vs, lookup ov.1.name values = some (.atom (.int ov.2)) ∧ Spec.representable ov.1.enc ov.1.bl ov.2) ∧
+      (w = 0 → ∃ cursor, decodeMessage none (os.map Obj.toParam) pdu true =
+        .ok (.dict ((os.zip vs).map fun ov => (ov.1.name, PVal.atom (.int ov.2))), cursor)) := by
+  by_cases hunk : values.any (fun kv => !((os.map Obj.toParam).any fun p => p.name == kv.1)) = true
+  · exact Or.inr (Or.inl (encodeMessage_flat_unknown os values trig hunk))
+  have hknown : values.any (fun kv => !((os.map Obj.toParam).any fun p => p.name == kv.1)) = false := by
+    simpa using hunk
+  by_cases hbad : ∃ o ∈ os, o.pick values = none
+  · exact Or.inl (encodeMessage_flat_bad os hlen hok values trig hknown hbad)
+  -- every object has a representable supplied value
+  have hgood : ∀ o ∈ os, ∃ v, o.pick values = some v := by
+    intro o ho
+    cases hp : o.pick values with
+    | none => exact absurd ⟨o, ho, hp⟩ hbad
+    | some v => exact ⟨v, rfl⟩
+  let vs : List Int := os.map fun o => (o.pick values).getD 0
+  have hzip : os.zip vs = os.map fun o => (o, (o.pick values).getD 0) := zip_map_self os _
+  have hmap1 : (os.zip vs).map (fun ov => ov.1.toParam) = os.map Obj.toParam := by
+    rw [hzip]; simp [List.map_map, Function.comp_def]
+  have hall : ∀ ov ∈ os.zip vs, (ov.1.ok ∧ int32InRange ov.1.enc ov.1.bl ov.2) ∧
+      lookup ov.1.name values = some (.atom (.int ov.2)) := by
+    intro ov hov
+    rw [hzip] at hov
+    obtain ⟨o, ho, rfl⟩ := List.mem_map.mp hov
+    obtain ⟨v, hv⟩ := hgood o ho
+    obtain ⟨h1, h2⟩ := Obj.pick_some values o (hok o ho) v hv
+    simp only [hv, Option.getD_some]
+    exact ⟨⟨hok o ho, h2⟩, h1⟩
+  have hlen' : (os.zip vs).length ≤ 4000 := by rw [hzip]; simpa using hlen
+  have hknown' : values.any (fun kv => !(((os.zip vs).map fun ov => ov.1.toParam).any fun p => p.name == kv.1)) = false := by
+    rw [hmap1]; exact hknown
+  obtain ⟨s0, _, _, _, _, _, hrun⟩ := encodeMessage_flat (os.zip vs) hlen' values trig
+    (fun ov h => (hall ov h).1) (fun ov h => (hall ov h).2) hknown'
+  rw [hmap1] at hrun
+  refine Or.inr (Or.inr ⟨vs, _, _, by simp [vs], hrun, fun ov h => ⟨(hall ov h).2, (hall ov h).1.2⟩, ?_⟩)
+  intro hw
+  rw [hw] at hrun
+  have hrt := flat_roundtrip (os.zip vs) hlen' values trig (fun ov h => (hall ov h).1) (fun ov h => (hall ov h).2) hknown'
+    _ (by rw [hmap1]; exact hrun)
+  rw [hmap1] at hrt
+  exact hrt
+
+/-- non-vacuity: each of the three outcomes occurs -/
+example : errClass (encodeMessage none ([⟨"a", none, none, none, true, 8⟩].map Obj.toParam) (.dict [("a", .atom (.int 200))]) none true)
+    = some .encode := by decide +kernel
+example : errClass (encodeMessage none ([⟨"a", none, none, none, true, 8⟩].map Obj.toParam) (.dict [("a", .atom (.str [65]))]) none true)
+    = some .encode := by decide +kernel
+example : errClass (encodeMessage none ([⟨"a", none, none, none, true, 8⟩].map Obj.toParam) (.dict []) none true)
+    = some .encode := by decide +kernel
+example : errClass (encodeMessage none ([⟨"a", none, none, none, true, 8⟩].map Obj.toParam) (.dict [("a", .atom (.int 1)), ("zz", .none)]) none true)
+    = some .odx := by decide +kernel
+example : (encodeMessage none ([⟨"a", none, none, none, true, 8⟩].map Obj.toParam) (.dict [("a", .atom (.int (-2)))]) none true).toOption
+    = some ([254], 0) := by decide +kernel
 
 /-- the witnesses of the pinned-commit defect are now rejected -/
 example : ¬ Spec.representable none 8 200 ∧ ¬ Spec.representable none 8 (-129) ∧
